@@ -15,7 +15,8 @@ from harness.props.c03 import subterms, subobjs, property_silent, translate, tot
 
 PROP = "C04"
 LEAN_PROP = "PyaModel.Props.C04"
-LEAN_TARGETS = ["PyaModel.Core.Sexp", "PyaModel.Spec.Mem", "PyaModel.Generated.ClassTable", "PyaModel.Spec.D04"]
+LEAN_TARGETS = ["PyaModel.Core.Sexp", "PyaModel.Spec.Mem", "PyaModel.Generated.ClassTable", "PyaModel.Spec.D04", "PyaModel.Spec.D04Sound",
+                "PyaModel.Spec.D14", "PyaModel.Core.Union"]
 ANCHORS = [
     ("pyanalyze/value.py", "Value.can_assign"),
     ("pyanalyze/value.py", "KnownValue.can_assign"),
@@ -144,7 +145,12 @@ def corpus_pairs():
             if l.strip():
                 d = json.loads(l)
                 out.append((totuple(d["A"]), totuple(d["B"])))
+                if "o" in d:
+                    WITNESS[(V.ty_sexp(out[-1][0]), V.ty_sexp(out[-1][1]))] = totuple(d["o"])
     return out
+
+
+WITNESS = {}
 
 
 def accepts(checker, A, B, exclude=False):
@@ -213,6 +219,8 @@ def evaluate(ctx, pairs, with_model=True, ncorpus=0):
             objs = [G.gen_obj_for(rng, B) for _ in range(ctx.n(6, 10))]
             if B[0] == "known":
                 objs.append(B[1])
+            if (case["A"], case["B"]) in WITNESS:
+                objs.insert(0, WITNESS[(case["A"], case["B"])])
             seen = set()
             for o in objs:
                 key = V.obj_sexp(V.canon_obj(o))
